@@ -1,0 +1,50 @@
+//go:build verif
+
+// Contracts read by /verif/govc (comment-only; never compiled into the node).
+
+package mmr
+
+// C19, clause "peak lists previously handed to callers are never modified by later appends": every function below
+// has a whole-heap frame — nothing that existed before the call changes, except the Peaks field of the receiver in
+// AppendOne. The hash function is a value supplied by the caller and is assumed not to write memory.
+
+//@ func (*MMR).concatenateAndHash
+//@   props C19
+//@   opt purecalls=1
+//@   requires args: m != nil && m.hashFn != nil && left != nil && right != nil
+//@   ensures fresh: result != nil && fresh(result)
+
+// GP E.8 R: s' = s except s'[i] = v, as a fresh list
+//@ func (*MMR).Replace
+//@   props C19
+//@   requires idx: index >= 0
+//@   ensures copy: fresh(result) && len(result) == len(sequence)
+//@   ensures same: forall(i, 0, len(sequence), i != index ==> result[i] == sequence[i])
+//@   ensures set: index < len(sequence) ==> result[index] == value
+
+// GP E.8 P (append with carry). Recursion on n; may use the spare capacity of `peaks` (never an element below len).
+//@ func (*MMR).P
+//@   props C19
+//@   opt purecalls=1
+//@   opt decreases=len(peaks)-n
+//@   requires args: m != nil && m.hashFn != nil && l != nil && n >= 0
+//@   ensures grows: len(result) >= len(peaks) && len(result) >= 1
+//@   ensures visible: forall(i, 0, len(peaks), peaks[i] == old(peaks[i]))
+//@   assigns peaks[*]
+
+//@ func (*MMR).AppendOne
+//@   props C19
+//@   opt purecalls=1
+//@   requires args: m != nil && m.hashFn != nil
+//@   ensures same: data == nil ==> result == old(m.Peaks)
+//@   ensures set: result == m.Peaks
+//@   ensures old_list: forall(i, 0, len(old(m.Peaks)), old(m.Peaks)[i] == old(m.Peaks[i]))
+//@   assigns m.Peaks
+
+// GP E.10 M_R: only safety and the frame are decided here (Keccak is external: the value is not specified)
+//@ func (*MMR).SuperPeak
+//@   props C19
+//@   opt decreases=len(peaks)
+//@   opt loopinv=len(h) <= rangeindex+1 && cap(h) == len(peaks) && fresh(h) && frame_only() && forall(i, 0, len(h), h[i] != nil)
+//@   requires args: m != nil
+//@   ensures frame: true
